@@ -846,3 +846,17 @@ def run(idx, rep, tier):
     r7(k)
     r8(k)
     r9(k)
+    # C03.R10: shared rule
+    from .c17 import port_fallback as _pf, r2 as _c17r2
+    rep.rule('C03.R10', 'the host key of the cleartext reply is looked up the way known_hosts says (= C17.R6 port fallback and C17.R2 marker routing): port-less entries are consulted only when [host]:port has no trusted entry of any kind, so a key listed for the plain host cannot stand in for a port whose own entry names a CA')
+    _before = len(rep.obligations)
+    _pf(k, "C03.R10"); _c17r2(k)
+    for o in rep.obligations[_before:]:
+        o.rule = 'C03.R10'
+    # C03.R11: shared rule
+    from .c01 import r4 as _c01r4
+    rep.rule('C03.R11', 'negotiated algorithms are used as negotiated (= C01.R4): the MAC (and cipher, compression) put into use for each direction is exactly what _choose_alg returned for that direction - no later substitution by a "better" sibling both sides happen to list')
+    _before = len(rep.obligations)
+    _c01r4(k)
+    for o in rep.obligations[_before:]:
+        o.rule = 'C03.R11'
